@@ -220,6 +220,7 @@ static coap_endpoint_t *ep, *ep2;
 static coap_session_t *cs;
 static coap_resource_t *r_obs;
 static int w_oscore;
+static int w_block = 1;           /* libcoap's block handling on both contexts (off for the helper scripts) */
 static uint8_t body[2500];
 
 static const sim_dgram_t *pending[256];
@@ -399,7 +400,7 @@ static int world_up(int oscore, int extras) {
   srv = coap_new_context(NULL);
   if (!srv) return 0;
   if (sim_nctx < SIM_MAX_CTX) sim_ctxs[sim_nctx++] = srv;
-  coap_context_set_block_mode(srv, COAP_BLOCK_USE_LIBCOAP | COAP_BLOCK_SINGLE_BODY);
+  if (w_block) coap_context_set_block_mode(srv, COAP_BLOCK_USE_LIBCOAP | COAP_BLOCK_SINGLE_BODY);
   if (oscore) {
     coap_str_const_t c = { sizeof(osc_conf_srv) - 1, (const uint8_t *)osc_conf_srv };
     coap_oscore_conf_t *oc = coap_new_oscore_conf(c, NULL, NULL, 0);
@@ -431,7 +432,7 @@ static int world_up(int oscore, int extras) {
   cli = coap_new_context(NULL);
   if (!cli) return 0;
   if (sim_nctx < SIM_MAX_CTX) sim_ctxs[sim_nctx++] = cli;
-  coap_context_set_block_mode(cli, COAP_BLOCK_USE_LIBCOAP | COAP_BLOCK_SINGLE_BODY);
+  if (w_block) coap_context_set_block_mode(cli, COAP_BLOCK_USE_LIBCOAP | COAP_BLOCK_SINGLE_BODY);
   coap_register_response_handler(cli, on_response);
   coap_register_nack_handler(cli, on_nack);
   sim_addr(&a, ntohs(ep->bind_addr.addr.sin.sin_port));
@@ -682,10 +683,16 @@ static void h_init(void) {
   signal(SIGALRM, on_alarm);
 }
 
+/* deterministic but varied "random" bytes: the two contexts must not start with the same message id */
+static void prng_script(void) {
+  for (size_t i = 0; i < sizeof(sim_prng_script); i++) sim_prng_script[i] = (uint8_t)(i * 37 + 11 + (i >> 8));
+  sim_prng_n = sizeof(sim_prng_script); sim_prng_pos = 0;
+  sim_prng_fill = 0x55;
+}
 static void begin_line(void) {
   sim_reset();
   sim_log_enabled = 0;
-  sim_prng_fill = 0x55;
+  prng_script();
   sim_tx_hook = on_tx;
   world_zero();
   oblen = 0; ob[0] = 0; sblen = 0; sb[0] = 0; nsent = 0;
@@ -744,7 +751,7 @@ static void do_alloc(char **w, int n) {
   } else {
     int rc;
     world_down();
-    sim_reset(); sim_tx_hook = on_tx; sim_log_enabled = 0; sim_prng_fill = 0x55;
+    sim_reset(); sim_tx_hook = on_tx; sim_log_enabled = 0; prng_script();
     if (!world_up(0, 0)) canary = "fail-setup";
     else {
       rc = canary_once();
@@ -769,7 +776,7 @@ static void do_ahelp(char **w, int n) {
   coap_pdu_t *pdu = NULL;
   coap_optlist_t *ol = NULL;
   void *strs[MAXSTR];
-  int nstr = 0, first = 1;
+  int nstr = 0, first = 1, nmid = 0;
   static uint8_t val[70000];
   size_t win_start;
   char *wtrace;
@@ -796,7 +803,9 @@ static void do_ahelp(char **w, int n) {
   for (size_t i = 0; i < sizeof(val); i++) val[i] = (uint8_t)(i + 1);
   /* the session exists before the script starts and is not part of the trace */
   tr_on = 0;
-  if (!world_up(0, 0)) { printf("setup-fail"); world_down(); return; }
+  w_block = 0;
+  if (!world_up(0, 0)) { printf("setup-fail"); world_down(); w_block = 1; return; }
+  w_block = 1;
   af_k1 = (unsigned)strtoul(w[1], NULL, 10);
   af_k2 = (unsigned)strtoul(w[2], NULL, 10);
   tr_on = 1; tr_lenient = 1;
@@ -811,7 +820,7 @@ static void do_ahelp(char **w, int n) {
     switch (e[0]) {
     case 'I':
       if (pdu) coap_delete_pdu(pdu);
-      pdu = coap_pdu_init(COAP_MESSAGE_CON, COAP_REQUEST_CODE_GET, 0x1234, a);
+      pdu = coap_pdu_init(COAP_MESSAGE_CON, COAP_REQUEST_CODE_GET, 0x1000 + (++nmid), a);      /* distinct message ids */
       snprintf(rcs, sizeof(rcs), "%d", !!pdu);
       break;
     case 'T': if (a <= sizeof(val)) snprintf(rcs, sizeof(rcs), "%d", coap_add_token(pdu, a, val)); break;
